@@ -123,6 +123,13 @@ class World:
                             m.set_result(pre[1])
                         elif pre[0] == "set_exception":
                             m.set_exception(EXC[pre[1]](pre[2]))
+                        elif pre[0] == "refused_retry":
+                            # the actor asks for a retry although none is left, and carries on after the refusal
+                            try:
+                                await m.retry()
+                                log.add(k="retry_not_refused", id=id_)
+                            except ValueError:
+                                log.add(k="retry_refused", id=id_)
                         elif pre[0] == "callback":
                             cbtag = pre[1]
 
